@@ -87,15 +87,13 @@ namespace igris
         bool operator==(const buffer &other) const
         {
             return (sz == other.sz) &&
-                   (strncmp(buf, other.buf, sz < other.sz ? sz : other.sz) ==
-                    0);
+                   (sz == 0 || memcmp(buf, other.buf, sz) == 0);
         }
 
         bool operator!=(const buffer &other) const
         {
             return (sz != other.sz) ||
-                   (strncmp(buf, other.buf, sz < other.sz ? sz : other.sz) !=
-                    0);
+                   (sz != 0 && memcmp(buf, other.buf, sz) != 0);
         }
 
         bool operator==(const char *str)
